@@ -68,6 +68,7 @@ THEOREMS = [
     "SqlglotModel.Properties.C12.eq_blind_to_type_comments_meta",
     "SqlglotModel.Properties.C12.eq_coarser_than_norm_witness",
     "SqlglotModel.Properties.C12.cast_type_reads_audited",
+    "SqlglotModel.Properties.C12.empty_vs_absent_readers_audited",
     "SqlglotModel.Properties.C12.view_id_of_no_rules",
     "SqlglotModel.Properties.C12.generated_ok",
     "SqlglotModel.Properties.C12.duplicate_keys_witness",
@@ -213,6 +214,40 @@ def cast_type_reads() -> list:
             for n in ast.walk(fn):
                 if isinstance(n, ast.Attribute) and n.attr in ("type", "_type") and isinstance(n.value, ast.Name) \
                         and n.value.id in names:
+                    sites.add(f"{rel}:{fn.name}:{ast.unparse(n)}")
+    return sorted(sites)
+
+
+def empty_vs_absent_readers() -> list:
+    """every site outside sqlglot/expressions and serde.py that tells an arg that is PRESENT with `None` / `[]` from an
+    ABSENT one — exactly what `dump` does not record and `norm` erases:  `"k" in x.args` / `not in` (None, [] vs absent),
+    `x.args.get("k") is (not) None` ([] vs absent/None),  `x.args[...] == []`."""
+    import glob
+
+    sites = set()
+    for f in sorted(glob.glob(os.path.join(REPO, "sqlglot", "**", "*.py"), recursive=True)):
+        rel = os.path.relpath(f, REPO).replace(os.sep, "/")
+        if rel.startswith("sqlglot/expressions/") or rel == "sqlglot/serde.py":
+            continue
+        try:
+            tree = ast.parse(open(f, encoding="utf-8").read())
+        except Exception:
+            continue
+        for fn in [n for n in ast.walk(tree) if isinstance(n, ast.FunctionDef)]:
+            for n in ast.walk(fn):
+                if not (isinstance(n, ast.Compare) and len(n.ops) == 1):
+                    continue
+                op, left, right = n.ops[0], n.left, n.comparators[0]
+                if isinstance(op, (ast.In, ast.NotIn)) and isinstance(left, ast.Constant) and isinstance(left.value, str) \
+                        and isinstance(right, ast.Attribute) and right.attr == "args":
+                    sites.add(f"{rel}:{fn.name}:{ast.unparse(n)}")
+                elif isinstance(op, (ast.Is, ast.IsNot)) and isinstance(right, ast.Constant) and right.value is None \
+                        and isinstance(left, ast.Call) and isinstance(left.func, ast.Attribute) and left.func.attr == "get" \
+                        and isinstance(left.func.value, ast.Attribute) and left.func.value.attr == "args" and left.args \
+                        and isinstance(left.args[0], ast.Constant):
+                    sites.add(f"{rel}:{fn.name}:{ast.unparse(n)}")
+                elif isinstance(op, (ast.Eq, ast.NotEq)) and isinstance(right, ast.List) and not right.elts \
+                        and ".args" in ast.unparse(left):
                     sites.add(f"{rel}:{fn.name}:{ast.unparse(n)}")
     return sorted(sites)
 
@@ -373,6 +408,10 @@ def translate(chk: Check) -> str:
                 cast_is_type_ok = rets == ["self.to.is_type(*dtypes)"]
     except Exception:
         pass
+    eva = empty_vs_absent_readers()
+    chk.cov["empty_vs_absent_readers"] = eva
+    lines.append("-- sites that tell a present-but-None/[] arg from an absent one (see empty_vs_absent_readers in c12.py)")
+    lines.append("def emptyVsAbsentReaders : List String := [" + ", ".join(lean_str(x) for x in eva) + "]")
     reads = cast_type_reads()
     chk.cov["cast_type_reads"] = reads
     lines.append("-- sites that read `.type` / `._type` of a cast-class node (see cast_type_reads in c12.py); Cast.is_type uses self.to")
@@ -429,7 +468,7 @@ def conv_raw(v, where, lenient=False):
         _, exp, _ = sg()
         if isinstance(v, exp.Expr):
             return {"$expr": norm(conv(v, where, 0, True))}
-        return {"$repr": repr(v)}
+        return {"$repr": type(v).__name__}       # (not repr: object addresses differ between equal copies)
     raise Unrep(type(v).__name__, where)
 
 
@@ -922,6 +961,46 @@ def cast_corpus(chk: Check) -> list:
                 except Exception:
                     chk.count("cast-corpus:annotate-error")
     chk.cov["cast_corpus_trees"] = len(out)
+    return out
+
+
+EMPTY_SQLS = [
+    "CREATE TABLE t ()", "CREATE TABLE child () INHERITS (parent)", "INSERT INTO t () VALUES ()", "SELECT f()",
+    "SELECT a IN ()", "SELECT ARRAY[]", "SELECT []", "SELECT STRUCT()", "SELECT IDENTIFIER('f')()", "SELECT ARRAY<INT64>[]",
+    "SELECT STRPOS(a, b)", "SELECT INSTR(a, b)", "SELECT LOCATE(b, a)", "SELECT MAP()", "SELECT {}", "SELECT x FROM t GROUP BY ()",
+    "SELECT COUNT(*) OVER ()", "INSERT INTO t DEFAULT VALUES", "SELECT ARRAY_CONSTRUCT()", "CALL p()", "SELECT * FROM f()",
+    "VALUES ()", "SELECT CAST(x AS ENUM())", "SELECT OBJECT_CONSTRUCT()", "CREATE FUNCTION f() RETURNS INT AS 'select 1'",
+    "SELECT x FROM t ORDER BY ()", "ALTER TABLE t ADD COLUMNS ()", "SELECT COALESCE()", "SELECT ROW()", "SELECT tuple()",
+]
+
+
+def empty_corpus(chk: Check) -> list:
+    """statements whose parse holds an EMPTY list arg or a None-valued arg (what `dump` does not record and `norm` erases),
+    parsed by every dialect, one tree per distinct parse; their SQL is compared in ALL dialects"""
+    sqlglot, exp, _ = sg()
+    out, seen = [], set()
+    for d in all_dialects():
+        for sql in EMPTY_SQLS:
+            try:
+                t = sqlglot.parse_one(sql, read=d)
+            except Exception:
+                continue
+            if t is None or isinstance(t, exp.Command):
+                continue
+            try:
+                fp = json.dumps(conv(t, lenient=True), sort_keys=True, default=str)   # (repr hides None-valued args)
+            except Exception:
+                fp = repr(t)
+            if fp in seen:
+                continue
+            seen.add(fp)
+            has_empty = any(type(v) is list and not v for n in t.walk() for v in n.args.values())
+            has_none = any(v is None for n in t.walk() for v in n.args.values())
+            if not (has_empty or has_none):
+                continue
+            chk.count("empty-corpus:" + ("empty-list" if has_empty else "none-only"))
+            out.append(({"sql": sql, "dialect": d, "xf": "raw", "cast_corpus": True, "corpus": "empty"}, t))
+    chk.cov["empty_corpus_trees"] = len(out)
     return out
 
 
@@ -1809,7 +1888,9 @@ def consider(chk: Check, origin, t, dialects, light=None) -> bool:
                 replay = {"check": check, "origin": origin}
         n_known = len(chk.known_hits)
         chk.report_violation(key, what, replay, {"check": check})
-        if len(chk.known_hits) > n_known and check not in known_checks:
+        # (only checks whose NAME identifies the class — alias-<side>-<field>, raw-type-<kind>; a known `sql` or `json`
+        # finding must never switch those checks off for other trees)
+        if len(chk.known_hits) > n_known and check not in known_checks and check.startswith(("alias-", "raw-type-")):
             known_checks.append(check)
         skip.append(check)
     return hit
@@ -1919,6 +2000,7 @@ def run(chk: Check) -> None:
     trees += list(constructed_trees(chk, chk.pick(2, 6)))
     n_constructed = len(trees)
     trees += cast_corpus(chk)
+    trees += empty_corpus(chk)
     for origin, t in parsed_trees(chk, chk.pick(160, 900), chk.pick(2, 5)):
         trees.append((origin, t))
         chk.count("tree:" + origin["xf"])
@@ -1934,7 +2016,7 @@ def run(chk: Check) -> None:
         if proved:
             raise
         chk.note(f"model driver unavailable ({e}); continuing with the search on the real code")
-    budget = chk.pick(25, 300)
+    budget = chk.pick(18, 300)
     if chk.broken:
         budget *= 2
     order = list(trees)
